@@ -120,3 +120,36 @@ def shuffle_keys(obj, rng):
     if isinstance(obj, list):
         return [shuffle_keys(v, rng) for v in obj]
     return obj
+
+
+def entry_point_problems(pms, fmt, obj, t1, tmpdir, main_variant=None):
+    """dump(path) / dump(file object) / dumps() write the same bytes; load(path) / load(file object) / loads() read the
+    same object (compared through their dumps()).  Returns a list of problems."""
+    import os
+    probs = []
+    path = os.path.join(tmpdir, "entry-%s" % fmt)
+    try:
+        with open(path, "w") as f:
+            obj.dump(f)
+        with open(path) as f:
+            via_fileobj = f.read()
+        if via_fileobj != t1:
+            probs.append("dump(file object) bytes differ from dumps()")
+        a = new_object(pms, fmt)
+        with open(path) as f:
+            a.load(f)
+        b = new_object(pms, fmt)
+        b.load(path)
+        c = new_object(pms, fmt)
+        c.loads(t1)
+        ta, tb, tc = a.dumps(), b.dumps(), c.dumps()
+        if not (ta == tb == tc):
+            probs.append("load(file object) / load(path) / loads() give different objects (their dumps differ)")
+    except Exception as e:
+        probs.append("entry points raised %s: %s" % (type(e).__name__, str(e)[:150]))
+    finally:
+        try:
+            os.unlink(path)
+        except OSError:
+            pass
+    return probs
